@@ -342,6 +342,25 @@ def isOk (impl : List String) : Bool := impl.head? == some "ok"
 /-- parameters for ops that involve no JWT -/
 def noJwt : Params := { methods := jwtMethods, verify := fun _ _ => false, leeway := 5 }
 
+/-- C19 oracle (independent of the model): a username the server accepts must be "" or consist of
+'/'-separated components none of which is "", "." or "..", without any backslash -/
+def ONameValid (impl : List String) : Option String :=
+  match impl with
+  | [_, u, _] =>
+    match unesc u with
+    | some name =>
+      if name.isEmpty then none
+      else
+        let comps : List (List Char) := name.foldr (fun c acc =>
+          if c = '/' then [] :: acc else match acc with
+            | [] => [[c]]
+            | a :: r => (c :: a) :: r) [[]]
+        if name.contains '\\' || comps.any (fun c => c = [] || c = ['.'] || c = ['.', '.']) then
+          some s!"C19: a login was accepted with the username '{u}', which is not a valid username (it comes from the token, not from the client)"
+        else none
+    | none => none
+  | _ => none
+
 def step (st : St) (op impl : List String) : St × Verdict :=
   match op with
   | ["smatch", tg, sub, g] =>
@@ -409,6 +428,7 @@ def step (st : St) (op impl : List String) : St × Verdict :=
           match st.ostore.lookup name with
           | none => some s!"C09: unknown token {name} was accepted"
           | some raw =>
+            orElse (ONameValid impl) fun _ =>
             orElse (OStatefulValid raw g) fun _ =>
             orElse (OUsername (raw.user.getD []) cuser users impl) fun _ =>
               match impl with
@@ -424,6 +444,7 @@ def step (st : St) (op impl : List String) : St × Verdict :=
     | some users, some cuser, some ks, some (inp, P), some host, some g =>
       let m := permResS (getPermissionToken P ks users host 0 g cuser inp none)
       let o := if isOk impl then
+          orElse (ONameValid impl) fun _ =>
           orElse (OJwtValid keys f host g) fun _ =>
             match OJwtGrants f, impl with
             | some (tu, p), [_, u, _] =>
